@@ -151,6 +151,12 @@ def corr_step(pid, cfg, res, tier, deep):
             o = problems_stream.run(tier, r)
             o["mismatches"] = [streams.Mismatch("problems", {"family": m[0][0], "args": m[0][1], "x": m[0][2]}, 0, "pb", m[1], m[2]) for m in o["mismatches"]]
             o["samples"] = [o.pop("sample")]
+        elif st == "evobj":
+            o = streams.corr_eo(r, tier)
+        elif st in ("world", "probworld"):
+            mod = importlib.import_module(f"{st}_stream")
+            o = mod.corr(r, tier)
+            o["mismatches"] = [streams.Mismatch(st, m.get("script", m), 0, str(m.get("command", "")), str(m.get("model", m.get("model_output", ""))), str(m.get("impl", m.get("implementation_output", "")))) for m in o["mismatches"]]
         elif st.startswith("solver"):
             import solver_variants
             ncases = cfg.get("solver_cases", {}).get(tier, 60 if tier == "quick" else 600)
